@@ -1,1 +1,183 @@
-//! placeholder
+//! M-HTTP: the harness's own strict HTTP/1.1 response parser and well-formedness rules.
+#![allow(dead_code)]
+use super::util::{escape_bytes, find_sub, lossy};
+
+#[derive(Clone, Debug)]
+pub struct Resp {
+    pub status: u16,
+    pub reason: String,
+    pub headers: Vec<(String, String)>,
+    pub body: Vec<u8>,
+    pub head_len: usize,
+}
+
+#[derive(Clone, Debug)]
+pub struct Problem { pub sig: String, pub detail: String }
+
+fn p(sig: &str, detail: String) -> Problem { Problem { sig: sig.to_string(), detail } }
+
+/// Reason phrases of the codes rws registers (the harness's own table, transcribed from RFC 9110 / IANA as rws spells them).
+pub fn reason_for(code: u16) -> Option<&'static str> {
+    Some(match code {
+        100 => "Continue", 101 => "Switching Protocols", 102 => "Processing", 103 => "Early Hints",
+        200 => "OK", 201 => "Created", 202 => "Accepted", 203 => "Non Authoritative Information", 204 => "No Content", 205 => "Reset Content",
+        206 => "Partial Content", 207 => "Multi-Status", 208 => "Already Reported", 226 => "IM Used",
+        300 => "Multiple Choices", 301 => "Moved Permanently", 302 => "Found", 303 => "See Other", 304 => "Not Modified", 307 => "Temporary Redirect", 308 => "Permanent Redirect",
+        400 => "Bad Request", 401 => "Unauthorized", 402 => "Payment Required", 403 => "Forbidden", 404 => "Not Found", 405 => "Method Not Allowed", 406 => "Not Acceptable",
+        407 => "Proxy Authentication Required", 408 => "Request Timeout", 409 => "Conflict", 410 => "Gone", 411 => "Length Required", 412 => "Precondition Failed",
+        413 => "Payload Too Large", 414 => "URI Too Long", 415 => "Unsupported Media Type", 416 => "Range Not Satisfiable", 417 => "Expectation Failed", 418 => "I'm A Teapot",
+        421 => "Misdirected Request", 422 => "Unprocessable Entity", 423 => "Locked", 424 => "Failed Dependency", 425 => "Too Early", 426 => "Upgrade Required",
+        428 => "Precondition Required", 429 => "Too Many Requests", 431 => "Request Header Fields Too Large", 451 => "Unavailable For Legal Reasons",
+        500 => "Internal Server Error", 501 => "Not Implemented", 502 => "Bad Gateway", 503 => "Service Unavailable", 504 => "Gateway Timeout", 505 => "HTTP Version Not Supported",
+        506 => "Variant Also Negotiates", 507 => "Insufficient Storage", 508 => "Loop Detected", 510 => "Not Extended", 511 => "Network Authentication Required",
+        _ => return None,
+    })
+}
+
+pub fn is_token(s: &str) -> bool {
+    !s.is_empty() && s.bytes().all(|b| b.is_ascii_alphanumeric() || b"!#$%&'*+-.^_`|~".contains(&b))
+}
+
+/// Parse strictly. Err = the bytes are not one HTTP response at all.
+pub fn parse(bytes: &[u8]) -> Result<Resp, Problem> {
+    if bytes.is_empty() { return Err(p("no-response-bytes", "nothing was written to the transport".into())); }
+    let head_end = match find_sub(bytes, b"\r\n\r\n") {
+        Some(i) => i,
+        None => return Err(p("response-head-unterminated", format!("no CRLFCRLF in {} bytes: {}", bytes.len(), lossy(bytes, 120)))),
+    };
+    let head = &bytes[..head_end];
+    let body = bytes[head_end + 4..].to_vec();
+    let mut lines: Vec<&[u8]> = vec![];
+    let mut start = 0;
+    let mut i = 0;
+    while i + 1 < head.len() {
+        if head[i] == b'\r' && head[i + 1] == b'\n' { lines.push(&head[start..i]); start = i + 2; i += 2; } else { i += 1; }
+    }
+    lines.push(&head[start..]);
+    let status_line = lines[0];
+    let sl = match std::str::from_utf8(status_line) { Ok(s) => s, Err(_) => return Err(p("status-line-not-utf8", lossy(status_line, 80))) };
+    if sl.contains('\r') || sl.contains('\n') { return Err(p("status-line-bare-cr-or-lf", escape_bytes(status_line))); }
+    let mut it = sl.splitn(3, ' ');
+    let version = it.next().unwrap_or("");
+    let code = it.next().unwrap_or("");
+    let reason = it.next();
+    if version != "HTTP/1.1" { return Err(p("status-line-version", format!("status line {:?}", sl))); }
+    if code.len() != 3 || !code.bytes().all(|b| b.is_ascii_digit()) { return Err(p("status-line-code", format!("status line {:?}", sl))); }
+    let reason = match reason { Some(r) => r.to_string(), None => return Err(p("status-line-no-reason", format!("status line {:?}", sl))) };
+    let status: u16 = code.parse().unwrap();
+    let mut headers = vec![];
+    for l in &lines[1..] {
+        let s = match std::str::from_utf8(l) { Ok(s) => s, Err(_) => return Err(p("header-line-not-utf8", lossy(l, 120))) };
+        if s.contains('\r') || s.contains('\n') { return Err(p("header-line-bare-cr-or-lf", format!("header line {:?}", s))); }
+        match s.find(':') {
+            None => return Err(p("header-line-without-colon", format!("header line {:?}", s))),
+            Some(c) => {
+                let name = &s[..c];
+                let value = s[c + 1..].trim_matches(|ch| ch == ' ' || ch == '\t');
+                headers.push((name.to_string(), value.to_string()));
+            }
+        }
+    }
+    Ok(Resp { status, reason, headers, body, head_len: head_end + 4 })
+}
+
+impl Resp {
+    pub fn get_all(&self, name: &str) -> Vec<&str> {
+        self.headers.iter().filter(|(n, _)| n.eq_ignore_ascii_case(name)).map(|(_, v)| v.as_str()).collect()
+    }
+    pub fn get(&self, name: &str) -> Option<&str> { self.get_all(name).first().copied() }
+    pub fn header_names(&self) -> Vec<String> { self.headers.iter().map(|(n, _)| n.clone()).collect() }
+}
+
+pub const FRAMING: [&str; 4] = ["Content-Length", "Content-Type", "Content-Range", "Transfer-Encoding"];
+
+/// Names rws can emit (its vocabulary). A header line with any other name was created by reflected client text.
+pub const SERVER_VOCABULARY: [&str; 22] = [
+    "Access-Control-Allow-Origin", "Access-Control-Allow-Credentials", "Access-Control-Allow-Methods", "Access-Control-Allow-Headers",
+    "Access-Control-Expose-Headers", "Access-Control-Max-Age", "Accept-CH", "Critical-CH", "Vary", "X-Content-Type-Options", "Accept-Ranges",
+    "X-Frame-Options", "Date-Unix-Epoch-Nanos", "Cache-Control", "Last-Modified-Unix-Epoch-Nanos", "Content-Type", "Content-Range", "Content-Length",
+    "Content-Disposition", "Location", "Allow", "Server",
+];
+
+/// Well-formedness and self-consistency rules of C05 (given the request method, if it could be determined).
+/// `no_body_by_method`: request method was HEAD or OPTIONS.
+pub fn wellformed(r: &Resp, no_body_by_method: bool) -> (Vec<Problem>, Vec<&'static str>) {
+    let mut problems = vec![];
+    let mut notes = vec![];
+    match reason_for(r.status) {
+        None => problems.push(p("unregistered-status-code", format!("status {}", r.status))),
+        Some(want) => if r.reason != want { problems.push(p("reason-phrase-mismatch", format!("status {} has reason {:?}, registered phrase is {:?}", r.status, r.reason, want))); }
+    }
+    for (n, v) in &r.headers {
+        if !is_token(n) { problems.push(p("header-name-not-a-token", format!("header name {:?}", n))); }
+        if !SERVER_VOCABULARY.iter().any(|k| k.eq_ignore_ascii_case(n)) { problems.push(p("header-name-outside-server-vocabulary", format!("header line {:?}: {:?}", n, v))); }
+        if v.bytes().any(|b| b < 0x20 && b != b'\t' || b == 0x7f) { notes.push("control-character-in-header-value"); }
+    }
+    for f in FRAMING {
+        let all = r.get_all(f);
+        if all.len() > 1 { problems.push(p("framing-header-twice", format!("{} appears {} times: {:?}", f, all.len(), all))); }
+    }
+    let no_body_by_status = r.status / 100 == 1 || r.status == 204 || r.status == 304;
+    if no_body_by_method || no_body_by_status {
+        if !r.body.is_empty() {
+            problems.push(p(if no_body_by_method { "body-on-head-or-options" } else { "body-on-bodiless-status" }, format!("{} body bytes on a response that carries no body (status {})", r.body.len(), r.status)));
+        }
+        if !no_body_by_method {
+            if let Some(cl) = r.get("Content-Length") { if cl != "0" { notes.push("nonzero-content-length-on-bodiless-status"); } }
+        }
+    } else if let Some(cl) = r.get("Content-Length") {
+        match cl.parse::<u64>() {
+            Err(_) => problems.push(p("content-length-not-a-number", format!("Content-Length {:?}", cl))),
+            Ok(n) => if n as usize != r.body.len() { problems.push(p("content-length-differs-from-body", format!("Content-Length {} but {} body bytes follow (status {})", n, r.body.len(), r.status))); }
+        }
+    }
+    (problems, notes)
+}
+
+#[derive(Clone, Debug)]
+pub struct Part { pub content_type: Option<String>, pub content_range: Option<String>, pub body: Vec<u8> }
+
+/// Split a multipart/byteranges body by the boundary named in the Content-Type header value.
+/// Tolerant of a missing final `--` and of one or two spaces after the colon of part headers.
+pub fn split_byteranges(content_type: &str, body: &[u8]) -> Result<Vec<Part>, String> {
+    let b = match content_type.split(';').filter_map(|x| x.trim().strip_prefix("boundary=")).next() { Some(b) => b.trim_matches('"').to_string(), None => return Err("no boundary parameter".into()) };
+    let delim = format!("--{}", b).into_bytes();
+    // positions of delimiter lines: at start of body or after CRLF
+    let mut positions = vec![];
+    let mut i = 0;
+    while i + delim.len() <= body.len() {
+        if &body[i..i + delim.len()] == &delim[..] && (i == 0 || (i >= 2 && &body[i - 2..i] == b"\r\n")) {
+            let after = &body[i + delim.len()..];
+            if after.is_empty() || after.starts_with(b"\r\n") || after.starts_with(b"--") { positions.push(i); i += delim.len(); continue; }
+        }
+        i += 1;
+    }
+    if positions.len() < 2 { return Err(format!("{} delimiter lines found", positions.len())); }
+    let mut parts = vec![];
+    for w in positions.windows(2) {
+        let seg_start = w[0] + delim.len();
+        let seg = &body[seg_start..w[1]];
+        let seg = seg.strip_prefix(b"\r\n").ok_or("delimiter not followed by CRLF")?;
+        // part ends with CRLF before next delimiter
+        let seg = if seg.len() >= 2 && &seg[seg.len() - 2..] == b"\r\n" { &seg[..seg.len() - 2] } else { return Err("part not terminated by CRLF before the next delimiter".into()) };
+        let he = find_sub(seg, b"\r\n\r\n").ok_or("part without blank line")?;
+        let head = std::str::from_utf8(&seg[..he]).map_err(|_| "part head not utf8")?;
+        let mut ct = None; let mut cr = None;
+        for line in head.split("\r\n") {
+            if let Some((n, v)) = line.split_once(':') {
+                if n.eq_ignore_ascii_case("Content-Type") { ct = Some(v.trim().to_string()); }
+                if n.eq_ignore_ascii_case("Content-Range") { cr = Some(v.trim().to_string()); }
+            }
+        }
+        parts.push(Part { content_type: ct, content_range: cr, body: seg[he + 4..].to_vec() });
+    }
+    Ok(parts)
+}
+
+/// Parse `bytes s-e/size`.
+pub fn parse_content_range(v: &str) -> Option<(u64, u64, u64)> {
+    let rest = v.trim().strip_prefix("bytes ")?;
+    let (r, size) = rest.split_once('/')?;
+    let (s, e) = r.split_once('-')?;
+    Some((s.trim().parse().ok()?, e.trim().parse().ok()?, size.trim().parse().ok()?))
+}
